@@ -281,6 +281,105 @@ def gen_wavelets(rng, tier):
     return out
 
 
+
+# ---- WaveletOp against the Coq filter-bank model (Model/Wavelet.v): exact model of ptwt's zero-mode conv / conv_transpose ----
+FB_WAVELETS = ['haar', 'db2', 'db3', 'sym2', 'sym4', 'coif1', 'bior1.1', 'bior2.2', 'rbio1.3', 'bior1.3', 'db4', 'bior3.1']
+
+
+def _fb_int(wavelet):
+    """pywt's float64 filter coefficients are dyadic rationals: scale all four filters by one power of two to integers"""
+    import pywt
+    from fractions import Fraction
+    fb = [[Fraction(float(v)) for v in f] for f in pywt.Wavelet(wavelet).filter_bank]
+    s = max(v.denominator for f in fb for v in f).bit_length() - 1
+    return s, [[int(v * 2 ** s) for v in f] for f in fb]
+
+
+def gen_filter_bank(rng, tier):
+    import pywt
+    out = []
+    fixed = [('haar', 6, 2), ('haar', 8, None), ('db2', 8, 1), ('db2', 10, 2), ('bior2.2', 12, 1), ('db3', 12, 1), ('sym2', 14, None)]
+    for i in range(len(fixed) + (12 if tier == 'quick' else 150)):
+        if i < len(fixed):
+            w, n, level = fixed[i]
+        else:
+            w = FB_WAVELETS[i % len(FB_WAVELETS)]
+            L = pywt.Wavelet(w).dec_len
+            n = 2 * rng.randint(max(1, L // 2), 9)
+            level = rng.choice([1, 1, 2, None]) if L <= 6 else rng.choice([1, None])
+        s, fb = _fb_int(w)
+        lvl = level if level is not None else pywt.dwt_max_level(n, pywt.Wavelet(w).dec_len)
+        out.append({'cls': 'WaveletOp', 'wavelet': w, 'n': n, 'level': level, 'model_level': lvl, 'scale_exp': s, 'filters': fb})
+    return out
+
+
+def impl_filter_bank(c):
+    import mrpro.operators as ops
+    op = ops.WaveletOp(domain_shape=(c['n'],), dim=(-1,), wavelet_name=c['wavelet'], level=c['level'])
+    F, G, out_shape = opzoo.dense(op, [c['n']], torch.float64)
+    return {'F': np.real(F).T.tolist(), 'G': np.real(G).T.tolist(), 'out': out_shape, 'shapes': [list(map(int, sh)) for sh in op.coefficients_shape]}
+
+
+def coq_filter_bank(c):
+    dl, dh, rl, rh = (vlib.zlist(f) for f in c['filters'])
+    A = f'(wavedec_Z {natlit(c["model_level"])} {natlit(len(c["filters"][0]))} {natlit(c["n"])} {dl} {dh} {rl} {rh})'
+    return f'(dense_fwd {A}, dense_adj {A}, andb (filters_match_b {dl} {rl}) (filters_match_b {dh} {rh}))'
+
+
+def _band_scales(c, ncoef):
+    """coefficient j of the stack [a_l, d_l, ..., d_1] went through (level - band + 1) filter stages, each scaled by 2^s"""
+    L, n, lvl = len(c['filters'][0]), c['n'], c['model_level']
+    sizes = []
+    for _ in range(lvl):
+        n = (n + L - 1) // 2
+        sizes.append(n)
+    depth = ([lvl] * sizes[-1] if lvl else []) + [d for d in range(lvl, 0, -1) for _ in range(sizes[d - 1])] if lvl else [0] * c['n']
+    return depth if len(depth) == ncoef else None
+
+
+def cmp_filter_bank(c, o, m):
+    if isinstance(o, dict) and 'raises' in o:
+        return f'impl raises {o["raises"]}: {o.get("msg")}'
+    from fractions import Fraction
+    mf, ma, orth = m
+    F, G = np.array(o['F'], dtype=np.float64), np.array(o['G'], dtype=np.float64)     # F[j][i] = (A e_j)_i ; G[i][j] = (A^H e_i)_j
+    if len(mf) != F.shape[0] or (len(mf) and len(mf[0]) != F.shape[1]):
+        return f'number of coefficients: implementation {F.shape[1]}, model {len(mf[0]) if mf else 0} (levels of sizes per WaveletOp.coefficients_shape {o["shapes"]})'
+    depth = _band_scales(c, F.shape[1])
+    if depth is None:
+        return 'band layout of the model differs from the implementation'
+    s = c['scale_exp']
+    MF = np.array([[float(Fraction(v, 2 ** (s * depth[i]))) for i, v in enumerate(col)] for col in mf], dtype=np.float64)
+    MA = np.array([[float(Fraction(v, 2 ** (s * depth[i]))) for v in row] for i, row in enumerate(ma)], dtype=np.float64)
+    for name, X, MX in (('forward (ptwt.wavedec, mode zero)', F, MF), ('adjoint (ptwt.waverec)', G, MA)):
+        if X.shape != MX.shape:
+            return f'{name}: shape {X.shape} vs model {MX.shape}'
+        d = np.abs(X - MX)
+        if d.size and d.max() > 1e-12 * max(1.0, np.abs(MX).max()):
+            k = np.unravel_index(np.argmax(d), d.shape)
+            return f'{name} matrix differs from the filter-bank model at {tuple(int(v) for v in k)}: {X[k]} vs {MX[k]}'
+    import pywt
+    if bool(orth) != bool(pywt.Wavelet(c['wavelet']).orthogonal) and c['wavelet'] not in ('bior1.1', 'rbio1.1'):
+        return f'filters_match_b = {orth} but pywt says orthogonal = {pywt.Wavelet(c["wavelet"]).orthogonal}'
+    return None
+
+
+def oracle_filter_bank(c, o):
+    if isinstance(o, dict) and 'raises' in o:
+        return f'constructing/applying WaveletOp raised {o["raises"]}: {o.get("msg")}'
+    F, G = np.array(o['F'], dtype=np.float64), np.array(o['G'], dtype=np.float64)
+    D = np.abs(G - F.T)
+    if D.size and D.max() > 1e-9:
+        i, j = np.unravel_index(np.argmax(D), D.shape)
+        return f'<A e_{j}, e_{i}> = {F[j, i]} but <e_{j}, A^H e_{i}> = {G[i, j]} (1-D WaveletOp {c["wavelet"]}, n={c["n"]}, level={c["level"]})'
+    return None
+
+
+def descr_filter_bank(c):
+    d = descr({'cls': 'WaveletOp', 'wavelet': c['wavelet'], 'domain': [c['n']], 'level': c['level']})
+    return d
+
+
 def gen_grid_modes(rng, tier):
     """every interpolation x padding x align_corners combination, with sample positions outside [-1, 1]"""
     out = []
@@ -364,4 +463,7 @@ FAMILIES = [
            impl_dense, None, '', None, oracle_adjoint, descr=descr, theorem='(implementation-level identity G = F^H)'),
     Family('wavelet_adjoint', gen_wavelets, impl_dense, None, '', None, oracle_adjoint, descr=descr,
            theorem='(implementation-level identity G = F^H)'),
+    Family('wavelet_filter_bank', gen_filter_bank, impl_filter_bank, coq_filter_bank,
+           'From MrVerif Require Import Base.Prelude Base.StarRing Base.Sums Model.OpAlg Model.Wavelet.', cmp_filter_bank, oracle_filter_bank,
+           descr=descr_filter_bank, shard=6, theorem='C01_wavelet_multilevel, C01_wavelet_adjoint_iff'),
 ]
